@@ -367,6 +367,9 @@ func (p *Proxy) handleConnectRequest(ctx *Context, req *http.Request, session *S
 			}
 			brw.Writer.Reset(nconn)
 			brw.Reader.Reset(nconn)
+			// A modifier hijacking the session from here on takes over the
+			// decrypted connection, not the raw one underneath it.
+			session.setConn(nconn, brw)
 			return p.handle(ctx, nconn, brw)
 		}
 
